@@ -475,7 +475,7 @@ func (s *Slice) checkBackendMasterStatus(ctx context.Context, downAfterNoAlive i
 		return
 	}
 
-	ticker := time.NewTicker(time.Duration(PingPeriod) * time.Second)
+	ticker := newTicker(time.Duration(PingPeriod) * time.Second)
 	defer ticker.Stop()
 
 	for {
@@ -525,7 +525,7 @@ func (s *Slice) checkBackendSlaveStatus(ctx context.Context, slave *DBInfo, down
 		return
 	}
 
-	ticker := time.NewTicker(time.Duration(PingPeriod) * time.Second)
+	ticker := newTicker(time.Duration(PingPeriod) * time.Second)
 	defer ticker.Stop()
 
 	for {
@@ -879,7 +879,7 @@ func (s *Slice) TryFuse(node *NodeInfo, err error) {
 		return
 	}
 
-	now := time.Now()
+	now := timeNow()
 	if !node.FuseStrategy.Trigger(now.Unix()) {
 		return
 	}
